@@ -260,11 +260,7 @@ Definition t_kids (t : ttree) : list ttree := match t with TNode _ _ k => k end.
 Fixpoint strip_eoi (eoi : N) (t : ttree) : ttree :=
   match t with
   | TNode r x kids =>
-      TNode r x ((fix go (l : list ttree) : list ttree :=
-                    match l with
-                    | [] => []
-                    | k :: l' => if t_rule k =? eoi then go l' else strip_eoi eoi k :: go l'
-                    end) kids)
+      TNode r x (filter (fun k => negb (t_rule k =? eoi)) (map (strip_eoi eoi) kids))
   end.
 
 (** A rule body of the shape  e1 ~ ... ~ EOI  : success consumes the input. *)
